@@ -69,7 +69,7 @@ func c14Cases() []c14Case {
 			add(fmt.Sprintf("error #%d", i), func() error { return e }, 500, e.Error())
 		}
 	}
-	for _, code := range []int{201, 404} {
+	for _, code := range []int{201, 404, 599, 600, 701, 999} {
 		code := code
 		for _, s := range strs {
 			s := s
@@ -133,18 +133,43 @@ func c14Cases() []c14Case {
 }
 
 func c14Check(cs c14Case) string {
+	// the table holds wherever the handler sits (route handler or the final action) and for GET and HEAD alike
+	for _, method := range []string{"GET", "HEAD"} {
+		for _, asAction := range []bool{false, true} {
+			if what := c14CheckAt(cs, method, asAction); what != "" {
+				return fmt.Sprintf("[%s, %s] %s", method, map[bool]string{false: "route handler", true: "final action"}[asAction], what)
+			}
+		}
+	}
+	return ""
+}
+
+func c14CheckAt(cs c14Case, method string, asAction bool) string {
 	f := NewWithLogger(io.Discard)
 	if cs.mapOnApp != nil {
 		f.Map(cs.mapOnApp)
 	}
 	sentinel := false
-	hs := append(append([]Handler{}, cs.pre...), cs.handler, func(c Context) {
-		sentinel = true
-		c.ResponseWriter().WriteHeader(299)
-		_, _ = c.ResponseWriter().Write([]byte("SENTINEL"))
-	})
-	f.Get("/", hs...)
+	hs := append([]Handler{}, cs.pre...)
+	if asAction {
+		f.Action(cs.handler)
+	} else {
+		hs = append(hs, cs.handler, func(c Context) {
+			sentinel = true
+			c.ResponseWriter().WriteHeader(299)
+			_, _ = c.ResponseWriter().Write([]byte("SENTINEL"))
+		})
+	}
+	if len(hs) == 0 {
+		hs = append(hs, func() {})
+	}
+	f.Routes("/", method, hs...)
 	rec := httptest.NewRecorder()
+	wrote := false
+	f.Use(func(c Context) {
+		c.Next()
+		wrote = c.ResponseWriter().Written()
+	})
 	panicked := ""
 	func() {
 		defer func() {
@@ -152,13 +177,25 @@ func c14Check(cs c14Case) string {
 				panicked = fmt.Sprint(r)
 			}
 		}()
-		f.ServeHTTP(rec, httptest.NewRequest("GET", "/", nil))
+		f.ServeHTTP(rec, httptest.NewRequest(method, "/", nil))
 	}()
 	if panicked != "" {
 		return "panic: " + panicked
 	}
+	wantBody := func(b string) string {
+		if method == "HEAD" {
+			return ""
+		}
+		return b
+	}
 	if cs.status == 0 {
-		if !sentinel || rec.Code != 299 || rec.Body.String() != "SENTINEL" {
+		if asAction {
+			if wrote || rec.Body.Len() != 0 {
+				return fmt.Sprintf("want nothing written; got written=%v status %d body %q", wrote, rec.Code, rec.Body.String())
+			}
+			return ""
+		}
+		if !sentinel || rec.Code != 299 || rec.Body.String() != wantBody("SENTINEL") {
 			return fmt.Sprintf("want nothing written and the chain to continue; got status %d body %q, next handler ran=%v", rec.Code, rec.Body.String(), sentinel)
 		}
 		return ""
@@ -166,8 +203,8 @@ func c14Check(cs c14Case) string {
 	if sentinel {
 		return fmt.Sprintf("the chain continued although the table writes status %d", cs.status)
 	}
-	if rec.Code != cs.status || rec.Body.String() != cs.body {
-		return fmt.Sprintf("got status %d body %q, the table gives status %d body %q", rec.Code, rec.Body.String(), cs.status, cs.body)
+	if !wrote || rec.Code != cs.status || rec.Body.String() != wantBody(cs.body) {
+		return fmt.Sprintf("got written=%v status %d body %q, the table gives status %d body %q", wrote, rec.Code, rec.Body.String(), cs.status, wantBody(cs.body))
 	}
 	return ""
 }
